@@ -59,6 +59,9 @@ func (ps *pathState) env() *envModel {
 }
 
 func (ps *pathState) newFlag(name string) value {
+	if sc, ok := ps.store["scope"].(string); ok && sc != "" {
+		name = sc + "." + name
+	}
 	name = ps.uniq(name)
 	v := ps.newVar("flag_"+name, 0)
 	ps.inputs = append(ps.inputs, &Input{Name: "flag:" + name, Kind: "bool", Terms: []*smt.Term{v}})
@@ -84,6 +87,10 @@ func registerEnvStubs(e *Engine) {
 	const ldPkg = "github.com/piprate/json-gold/ld"
 
 	// ---------- harness-side environment API ----------
+	in["zz.Scope"] = func(fr *frame, a []value) value {
+		fr.i.ps.store["scope"] = mustStr(a[0], "Scope")
+		return nil
+	}
 	in["zz.StubOn"] = func(fr *frame, a []value) value {
 		fr.i.ps.env().stubsOn[mustStr(a[0], "StubOn")] = true
 		return nil
@@ -376,10 +383,12 @@ func registerEnvStubs(e *Engine) {
 		case int64:
 			return time.Unix(0, x).UTC().Format(layout)
 		case sym:
-			n := int64(x.concretize())
-			return time.Unix(0, n).UTC().Format(layout)
+			// a stubbed clock reading: Format is an injective uninterpreted function of it
+			if x.t.Op == smt.OpVar {
+				return "<<time:" + x.t.Name + ">>"
+			}
 		}
-		panic(unsupported{"time.Format"})
+		panic(unsupported{"time.Format of a computed symbolic instant"})
 	}
 	in["(time.Duration).Microseconds"] = func(fr *frame, a []value) value { return asInt64(a[0]) / 1000 }
 	in["context.Background"] = func(fr *frame, a []value) value { return iface{} }
@@ -665,7 +674,14 @@ func registerEnvStubs(e *Engine) {
 		}
 		panic(unsupported{"unicode.ToLower"})
 	}
-	in["(*sync.Pool).Get"] = func(fr *frame, a []value) value { return iface{} }
+	in["(*sync.Pool).Get"] = func(fr *frame, a []value) value {
+		st := (*a[0].(*value)).(structure)
+		newFn := st[len(st)-1]
+		if f, ok := newFn.(*ssa.Function); ok && f == nil {
+			return iface{}
+		}
+		return call(fr.i, fr, 0, newFn, nil)
+	}
 	in["(*sync.Pool).Put"] = func(fr *frame, a []value) value { return nil }
 	in["strings.Repeat"] = func(fr *frame, a []value) value {
 		return strings.Repeat(mustStr(a[0], "Repeat"), int(asInt64(a[1])))
